@@ -204,7 +204,7 @@ func rejectsUnless(fn *ssa.Function, guards []engine.Guard) bool {
 		if retErrKind(ret) == "nonnil" {
 			continue
 		}
-		if !engine.OnlyThroughPass(fn, ret.Block(), guards) {
+		if !engine.OnlyThroughPassRet(fn, ret, guards) {
 			return false
 		}
 	}
